@@ -1,4 +1,4 @@
-\* the full product: 3 policies x 4 RRDP outcomes x RRDP on/off x rsync on/off x CA with/without rpkiNotify = 96 rows
+\* the full product: 3 policies x (copy none/current/expired x update ok/notification fails/snapshot fails/delta fails, 11 pairs) x RRDP on/off x rsync on/off x CA with/without rpkiNotify = 264 rows
 SPECIFICATION Spec
 CONSTANT Variant = "as_documented"
 INVARIANTS C29_FollowsTable C29_RrdpOnlyIfAnnouncedAndEnabled
